@@ -60,7 +60,9 @@ Print Assumptions C15_delete_cluster.
 (* Re-syncing cluster [name] with a server list [sv] (accepted by the controller), after EVERY history
    [ops] — in particular whatever syncs (added enabled, added disabled and enabled later, disabled and
    re-enabled, removed and re-added ...) started the probe loops that exist at that moment.
-   For an endpoint object of that cluster that is live and not in [sv] any more:
+   For an endpoint object of that cluster that is live and not in [sv] any more — the hypotheses say
+   nothing about its Disabled and Healthy flags: drained (disabled:true) first or not, healthy or not,
+   removal treats it the same way (C15_remove_disabled_nonvacuous instantiates the disabled+unhealthy case):
    1  it leaves the endpoint map, its context is done, its probe context is done (every probe context is
       derived from its endpoint's context, on the new-endpoint path and on the update path alike), a
       health-check tick sends no probe;
@@ -183,7 +185,7 @@ Print Assumptions C15_cut_needs_done_context.
 (* Before fix 9edc511 clause 4 of C15_delete_cluster was false: a request that had resolved the cluster
    before the deletion was forwarded to an endpoint of the deleted cluster. *)
 Definition stale_witness : list op :=
-  [OUpsert 0 [] [(10, false)]; OHealthy 1; OStart 7 0 []; ODelete 0].
+  [OUpsert 0 [] [(10, false)]; OHealthy 1 true; OStart 7 0 []; ODelete 0].
 Theorem C15_stale_request_forwarded_before_fix :
   exists ops id choice eo,
     In (EDoomed eo) (snd (step false (run false init ops) (OPick id choice)))
@@ -195,7 +197,7 @@ Print Assumptions C15_stale_request_forwarded_before_fix.
 (* two clusters; requests streaming on cluster 0 (endpoint object 1) and cluster 1 (object 4), one
    request resolved on cluster 0 and not yet dispatched; cluster 0 is deleted *)
 Definition demo : list op :=
-  [OUpsert 0 [5] [(10, false); (11, false)]; OUpsert 1 [] [(20, false)]; OHealthy 1; OHealthy 2; OHealthy 4;
+  [OUpsert 0 [5] [(10, false); (11, false)]; OUpsert 1 [] [(20, false)]; OHealthy 1 true; OHealthy 2 true; OHealthy 4 true;
    OStart 100 0 [10]; OPick 100 0; OHeaders 100;
    OStart 101 1 []; OPick 101 0; OHeaders 101;
    OStart 102 5 []].
@@ -238,3 +240,22 @@ Example C15_rejected_object_nonvacuous :
               ODelete 5; ODelete 7; ODelete 8] = s
   /\ resolve s 5 = Some 0 /\ resolve s 7 = None.
 Proof. vm_compute. repeat split; reflexivity. Qed.
+
+(* drain, then remove: a stream runs on endpoint object 1; its probes start failing; a sync marks it
+   disabled:true (the stream goes on: its context is not done, it could still complete); the next sync
+   drops it from the server list while it is still disabled and unhealthy: it leaves the map, its context
+   and probe context are done, the stream can only be cut; the sibling (object 2) is untouched *)
+Example C15_remove_disabled_nonvacuous :
+  let s0 := run true init [OUpsert 0 [] [(10, false); (11, false)]; OHealthy 1 true; OHealthy 2 true;
+                           OStart 100 0 [10]; OPick 100 0; OHeaders 100;
+                           OStart 101 0 [11]; OPick 101 0; OHeaders 101;
+                           OHealthy 1 false; OUpsert 0 [] [(10, true); (11, false)]] in
+  let s1 := run true s0 [OUpsert 0 [] [(11, false)]] in
+  (exists e, find_ep s0 1 = Some e /\ elive e = true /\ edisabled e = true /\ ehealthy e = false /\ ep_done s0 e = false)
+  /\ map (req_done s0) (reqs s0) = [false; false]
+  /\ (exists e, find_ep s1 1 = Some e /\ elive e = false /\ ecancel e = true /\ probe_done s1 e = true)
+  /\ map (req_done s1) (reqs s1) = [true; false]
+  /\ map rph (reqs (run true s1 [OFinish 100; OCancelSeen 100; OCancelSeen 101; OFinish 101])) = [PDone RCut; PDone R200]
+  /\ snd (step true s1 (OTick 1)) = [] /\ snd (step true s1 (OTick 2)) = [EProbe 2]
+  /\ live_ep s1 0 10 = None.
+Proof. vm_compute. repeat split; try reflexivity; eexists; repeat split; reflexivity. Qed.
